@@ -439,6 +439,8 @@ func Run(c *hx.Ctx) {
 	RunH2(c, "C09", c.N(220, 2500))
 	// the multiplex and HTTP/2 pools' ledger per request end cause (mxw.go)
 	RunMxw(c, "C09", c.N(120, 1200))
+	// pool9: the binding pool's ledger with a connection closed inside NewStream (bnd.go)
+	RunBnd(c, "C09", c.N(30, 300))
 	// overlapping ResetStream / DestroyStream calls on one real BaseStream, every interleaving (once.go)
 	runOnce(c)
 	// concurrent phase (support): books equal the truth again once concurrent leases, resets and closes have settled
